@@ -153,6 +153,7 @@ package experiment
 //@ ghost gStartedFor Int     // last trial announced to the observer with TrialRunStarted
 //@ ghost gNotified Int       // generations of the current trial announced with EpochEvaluated
 //@ ghost gFinishedFor Int    // last trial announced with TrialRunFinished
+// gCancelled (declared with the context contracts in /verif/contracts/externals.spec): any callback may cancel the context, nothing un-cancels it.
 
 // Assumption about the caller: the context carries a non-nil options value within its documented ranges.
 //@ func neat.FromContext
@@ -162,7 +163,8 @@ package experiment
 //@   ensures result1 ==> result0.CompatThreshold <= 1.7976931348623157e308
 //@ func genetics.NewPopulation
 //@   reason spawning is covered by C01/C02/C06; here only its protocol role matters
-//@   modifies ghost gTrial, ghost gPop, ghost gEval, ghost gTurn, ghost gSolved, ghost gNotified
+//@   modifies ghost gTrial, ghost gPop, ghost gEval, ghost gTurn, ghost gSolved, ghost gNotified, ghost gCancelled
+//@   ensures [cancelStays] old(gCancelled) ==> gCancelled
 //@   ensures result1 == nil ==> result0 != nil && fresh(result0) && gTrial == old(gTrial) + 1 && gPop == result0 && gEval == 0 && gTurn == 0 && !gSolved && gNotified == 0
 //@   ensures result1 != nil ==> gTrial == old(gTrial) && gEval == old(gEval)
 //@ func (*genetics.Population).Verify
@@ -172,9 +174,11 @@ package experiment
 //@   trusted interface contract: generations are evaluated in order 0,1,2,... on the population spawned for the trial, never after a solved one, each after exactly one turnover of the previous one
 //@   requires [order] epoch != nil && epoch.Id == gEval && epoch.TrialId == gTrial && gEval < gMaxGen
 //@   requires [notAfterSolved] !gSolved
+//@   requires [notCancelled] !gCancelled
 //@   requires [population] pop != nil && pop == gPop
 //@   requires [turnedOver] gTurn == gEval
-//@   modifies ghost gEval, ghost gSolved, Generation.Solved, Generation.Champion, Generation.Fitness, Generation.Age, Generation.Complexity, Generation.Diversity, Generation.WinnerEvals, Generation.WinnerNodes, Generation.WinnerGenes
+//@   modifies ghost gEval, ghost gSolved, Generation.Solved, Generation.Champion, Generation.Fitness, Generation.Age, Generation.Complexity, Generation.Diversity, Generation.WinnerEvals, Generation.WinnerNodes, Generation.WinnerGenes, ghost gCancelled
+//@   ensures [cancelStays] old(gCancelled) ==> gCancelled
 //@   ensures result == nil ==> gEval == old(gEval) + 1 && gSolved == epoch.Solved && (epoch.Solved ==> epoch.Champion != nil)
 //@   ensures result != nil ==> gEval == old(gEval) && gSolved == old(gSolved)
 //@   ensures epoch.Id == old(epoch.Id) && epoch.TrialId == old(epoch.TrialId)
@@ -183,14 +187,16 @@ package experiment
 //@   requires [unsolvedOnly] !gSolved
 //@   requires [once] gTurn == gEval - 1 && generation == gEval - 1
 //@   requires [population] population != nil && population == gPop
-//@   modifies ghost gTurn
+//@   modifies ghost gTurn, ghost gCancelled
+//@   ensures [cancelStays] old(gCancelled) ==> gCancelled
 //@   ensures result == nil ==> gTurn == old(gTurn) + 1
 //@   ensures result != nil ==> gTurn == old(gTurn)
 //@ func (TrialRunObserver).TrialRunStarted
 //@   trusted interface contract: exactly one start per trial, before any evaluation
 //@   requires [once] gStartedFor == gTrial - 1 && gEval == 0
 //@   requires [trial] trial != nil && trial.Id == gTrial
-//@   modifies ghost gStartedFor
+//@   modifies ghost gStartedFor, ghost gCancelled
+//@   ensures [cancelStays] old(gCancelled) ==> gCancelled
 //@   ensures gStartedFor == gTrial
 //@ func (TrialRunObserver).EpochEvaluated
 //@   trusted interface contract: every evaluated generation is announced exactly once, in order, after its turnover
@@ -198,14 +204,16 @@ package experiment
 //@   requires [onceInOrder] gNotified == gEval - 1 && epoch != nil && epoch.Id == gEval - 1
 //@   requires [afterTurnover] gSolved || gTurn == gEval
 //@   requires [recorded] trial != nil && len(trial.Generations) == gEval
-//@   modifies ghost gNotified
+//@   modifies ghost gNotified, ghost gCancelled
+//@   ensures [cancelStays] old(gCancelled) ==> gCancelled
 //@   ensures gNotified == gEval
 //@ func (TrialRunObserver).TrialRunFinished
 //@   trusted interface contract: exactly one finish per trial, after its last generation
 //@   requires [once] gFinishedFor == gTrial - 1 && gStartedFor == gTrial
 //@   requires [afterLast] gNotified == gEval && (gSolved || gEval == gMaxGen)
 //@   requires [trial] trial != nil && trial.Id == gTrial
-//@   modifies ghost gFinishedFor
+//@   modifies ghost gFinishedFor, ghost gCancelled
+//@   ensures [cancelStays] old(gCancelled) ==> gCancelled
 //@   ensures gFinishedFor == gTrial
 
 //@ func epochExecutorForContext
@@ -215,7 +223,7 @@ package experiment
 //@   ensures [executor] result1 == nil ==> !isNilIface(result0)
 //@ func (*Experiment).Execute
 //@   props C20
-//@   abstracts select
+//@   select_done gCancelled
 //@   requires e != nil && e.Trials == nil && evaluator != nil && startGenome != nil
 //@   requires gTrial == -1 && gStartedFor == -1 && gFinishedFor == -1
 //@   requires neat.ErrNEATOptionsNotFound != nil
